@@ -5,3 +5,7 @@ open Biogo.Properties.C14_checker
 #print axioms mem_uncovered
 #print axioms checker_iff_in_scope
 #print axioms nreq_zero_iff
+#print axioms checker_iff_strand
+#print axioms mem_uncoveredC
+#print axioms nreqC_zero_iff
+#print axioms requiredC_mirror
